@@ -286,6 +286,15 @@ class Interp:
                         from .vals import Bool as _B, Int as _I, Real as _R, Str as _S
                         sh = {bool: _B, int: _I, float: _R, str: _S}.get(type(v))
                         break
+                    if isinstance(st, (ast.Assign, ast.AnnAssign)) and isinstance(
+                            st.targets[0] if isinstance(st, ast.Assign) else st.target, ast.Attribute):
+                        tg = st.targets[0] if isinstance(st, ast.Assign) else st.target
+                        if isinstance(tg.value, ast.Name) and tg.value.id == "self" and tg.attr == name and \
+                                st.value is not None and ast.unparse(st.value) in ("{}", "dict()"):
+                            # a cache / table that starts empty: explored with ARBITRARY content (string keys)
+                            from .vals import MapS as _M, Str as _S2, Opaque as _O
+                            sh = _M(_S2, _O("Any"))
+                            break
         if sh is not None:
             self.note("attribute %s.%s is not declared by the contract set: explored as an arbitrary value of the type "
                       "its __init__ gives it" % (cls, name))
